@@ -8,6 +8,7 @@ package ctlog
 // issuing CA, an unrelated self-signed CA, and per-case leaves.
 
 import (
+	"bytes"
 	"crypto/ecdsa"
 	"crypto/elliptic"
 	"crypto/rand"
@@ -50,7 +51,11 @@ var (
 	c09PKIOnce   sync.Once
 	c09PKIs      map[string]*c09PKI
 	c09Unrelated *c09CA
-	c09LeafKey   *ecdsa.PrivateKey
+	// c09Cross is the "accepted" PKI's I1 (same subject, same key) certified a
+	// second time, by the "removed" PKI's root: the same leaf verifies through
+	// [leaf, I1] -> root-accepted and through [leaf, c09Cross] -> root-removed.
+	c09Cross   *c09CA
+	c09LeafKey *ecdsa.PrivateKey
 )
 
 func c09Must[T any](v T, err error) T {
@@ -104,6 +109,22 @@ func c09InitPKI() {
 			c09PKIs[n] = p
 		}
 		c09Unrelated = c09NewCA("unrelated", nil, false)
+		a, parent := c09PKIs["accepted"].i1, c09PKIs["removed"].root
+		tmpl := &x509.Certificate{
+			SerialNumber:          c09Serial("ca/cross-i1"),
+			Subject:               a.cert.Subject,
+			NotBefore:             a.cert.NotBefore,
+			NotAfter:              a.cert.NotAfter,
+			IsCA:                  true,
+			BasicConstraintsValid: true,
+			KeyUsage:              x509.KeyUsageCertSign | x509.KeyUsageCRLSign,
+			SubjectKeyId:          a.cert.SubjectKeyId,
+		}
+		der := c09Must(x509.CreateCertificate(rand.Reader, tmpl, parent.cert, &a.key.PublicKey, parent.key))
+		c09Cross = &c09CA{key: a.key, cert: c09Must(x509.ParseCertificate(der)), der: der}
+		if !bytes.Equal(c09Cross.cert.RawSubject, a.cert.RawSubject) {
+			panic("c09: cross certificate subject differs")
+		}
 	})
 }
 
